@@ -26,7 +26,8 @@ Inductive wnode :=
 Record wcue := mkW { wc_counter : text; wc_begin : Z; wc_end : Z; wc_payload : list wnode }.
 
 (* ------------------------------------------------------------------ what the writer prints *)
-Definition whours (h : Z) : text := if h <? 100 then pad2 h else digits_fuel 12 10 h [].
+(* two digits, or as many as the number has (fuel: a number has no more decimal digits than binary ones) *)
+Definition whours (h : Z) : text := if h <? 100 then pad2 h else digits_fuel (S (Z.to_nat (Z.log2 h))) 10 h [].
 Definition wclock (ms : Z) : text :=
   whours (ms / 3600000) ++ [58] ++ pad2 ((ms / 60000) mod 60) ++ [58] ++ pad2 ((ms / 1000) mod 60) ++ [44] ++ pad3 (ms mod 1000).
 
@@ -98,14 +99,12 @@ Fixpoint wwf_node (n : wnode) : bool :=
   | WBold body | WItalic body | WUnder body =>
       (fix go (l : list wnode) : bool := match l with [] => true | x :: l' => wwf_node x && go l' end) body
   end.
+(* the writer formats the hour with Python's integer formatting, which refuses numbers of more than
+   sys.get_int_max_str_digits() = 4 300 digits (ValueError): no output has a longer hour field *)
+Definition wtime_ok (ms : Z) : bool := (0 <=? ms) && (Z.of_nat (length (whours (ms / 3600000))) <=? max_hour_digits).
 Definition wwf_cue (c : wcue) : bool :=
   negb (match wc_counter c with [] => true | _ => false end) && forallb is_dec (wc_counter c) &&
-  (0 <=? wc_begin c) && (0 <=? wc_end c) &&
+  wtime_ok (wc_begin c) && wtime_ok (wc_end c) &&
   forallb wwf_node (wc_payload c) &&
   forallb (fun l => negb (all_ws l)) (split_at_lf (wprint_nodes (wc_payload c)) []).
 Definition wwf (cs : list wcue) : bool := forallb wwf_cue cs.
-
-(* recorded finding hours-beyond-999-rejected: the reader's pattern knows hour fields of two or three digits; the
-   writer prints as many digits as the number needs *)
-Definition trigger_hours_1000 (cs : list wcue) : bool :=
-  existsb (fun c => (3600000000 <=? wc_begin c) || (3600000000 <=? wc_end c)) cs.
